@@ -52,6 +52,11 @@ type SimKV struct {
 	// (write=true/false) before the injection logic; used as a yield point by
 	// engines with concurrent simulated clients. Called without the lock.
 	OnTx func(write bool)
+	// OnTxEnd, if set, is called when a closure-style transaction (Update /
+	// View) has returned to the wrapper, before the wrapper returns to lnd:
+	// the second half of the yield-point pair for engines that schedule
+	// caller goroutines at the database boundary. Called without the lock.
+	OnTxEnd func(write bool)
 }
 
 var _ walletdb.DB = (*SimKV)(nil)
@@ -217,7 +222,11 @@ func (s *SimKV) Update(f func(tx walletdb.ReadWriteTx) error, reset func()) erro
 	if err != nil {
 		return err
 	}
-	return s.post(k, s.inner.Update(f, reset))
+	err = s.post(k, s.inner.Update(f, reset))
+	if s.OnTxEnd != nil {
+		s.OnTxEnd(true)
+	}
+	return err
 }
 
 func (s *SimKV) View(f func(tx walletdb.ReadTx) error, reset func()) error {
@@ -231,7 +240,11 @@ func (s *SimKV) View(f func(tx walletdb.ReadTx) error, reset func()) error {
 	}
 	s.reads++
 	s.mu.Unlock()
-	return s.inner.View(f, reset)
+	err := s.inner.View(f, reset)
+	if s.OnTxEnd != nil {
+		s.OnTxEnd(false)
+	}
+	return err
 }
 
 type simRwTx struct {
@@ -273,7 +286,7 @@ func (s *SimKV) BeginReadTx() (walletdb.ReadTx, error) {
 }
 
 func (s *SimKV) Copy(w io.Writer) error { return s.inner.Copy(w) }
-func (s *SimKV) PrintStats() string   { return s.inner.PrintStats() }
+func (s *SimKV) PrintStats() string     { return s.inner.PrintStats() }
 func (s *SimKV) Close() error {
 	s.mu.Lock()
 	defer s.mu.Unlock()
